@@ -150,6 +150,17 @@ def r12(chk):
     chk.ob("C16.R1", where, "tile-callee", ok,
            "the hypothetical population repeats the pilot sequence (np.tile(x, ceil(N/len(x)))[0:N] or np.resize(x, N)), not each element",
            node=pops[0] if pops else top, **detail)
+    # ... and `x` is the data handed in (both branches read it): re-bound at most to an array of the same values in the same order
+    xpar = fn.args.args[1].arg if len(fn.args.args) > 1 else "x"
+    same_values = lambda e: isinstance(e, ast.Call) and norm(e.func) in ("np.asarray", "np.array", "np.asanyarray", "list", "np.asfarray", "np.copy") \
+        and e.args and norm(e.args[0]) == xpar and all(k.arg in ("dtype", "copy") for k in e.keywords)
+    rebinds = [s_ for s_ in walk_local(fn) if (isinstance(s_, ast.Assign) and any(isinstance(t_, ast.Name) and t_.id == xpar for t_ in s_.targets)
+                                                and not same_values(s_.value))
+               or (isinstance(s_, ast.AugAssign) and norm(s_.target) == xpar)
+               or (isinstance(s_, ast.Assign) and any(isinstance(t_, ast.Subscript) and norm(t_.value) == xpar for t_ in s_.targets))]
+    chk.ob("C16.R1", where, "pilot-data-as-given", not rebinds,
+           "the estimate is computed on the data handed in: the parameter is not clipped, rounded, filtered or written into first",
+           node=rebinds[0] if rebinds else fn, strength="N", rebinds=[norm(r_)[:80] for r_ in rebinds])
     nd = [s for s in fn.body if isinstance(s, ast.Assign) and norm(s.targets[0]) == NN_]
     chk.ob("C16.R1", where, "N-is-population-size", len(nd) == 1 and norm(nd[0].value) == "self.N",
            "N is the test's own population size", node=nd[0] if nd else fn, strength="N")
@@ -375,6 +386,14 @@ def r4(chk):
     chk.ob("C16.R4", where, "comparison-data-at-assumed-rates", ok,
            "comparison: all values error-free, then the one-vote value at every int(1/rate_1)-th position, then 0 at every int(1/rate_2)-th "
            "(two-vote errors overwrite one-vote errors)", node=fn, strength="N")
+    # the assumed rates are the ones configured: a rate of exactly 0 ("no errors of that kind") is a legitimate assumption, and
+    # `rate or default` would replace it by the default
+    params_ = {a.arg for a in fn.args.args + fn.args.kwonlyargs} - {"self"}
+    bad_or = aud.or_defaults(fn, lambda v: (isinstance(v, ast.Name) and v.id in params_) or
+                             (isinstance(v, ast.Attribute) and "rate" in v.attr))
+    chk.ob("C16.R4", where, "rates-not-defaulted-through-or", not bad_or,
+           "an assumed rate (or any other numeric argument) that was passed in is used as passed: defaults are supplied on `is None`, "
+           "not on truthiness, which would replace a configured 0", node=fn, strength="N", or_defaults=bad_or)
     # the estimate itself: the assertion's own test, its contest's risk limit
     tcalls = [c for c in ast.walk(fn) if isinstance(c, ast.Call) and norm(c.func) == "self.test.sample_size"]
     alpha_ok = bool(tcalls) and all({k.arg: norm(k.value) for k in c.keywords}.get("alpha") == "self.contest.risk_limit" for c in tcalls)
